@@ -270,6 +270,82 @@ def _hd_decision_table(rep, p, mod, fd, lp):
     rep.holds('naming rules', lp, 'all {} abstract column infos are named as prescribed: missing -> colK; star -> input+join / input / join names; column name; alias; index within its header -> source name; otherwise colK'.format(n_ok))
 
 
+def _hd_model(cx, rep, port, p, mod, fd):
+    """select_output_header decided on its abstract outcomes: the headers are lists of name tokens (A0 A1 / B0), the select list is a
+    list of column-info objects of each kind (unparsed, star of each table, named, aliased, indexed inside / outside its own table's
+    header), and the header returned is compared with the one the naming rules give.  True when every scenario was evaluated."""
+    from .. import absexec as AX
+
+    def tok(n):
+        return AX.Abs('Name', id=n)
+    A0, A1, B0, N1, L1 = tok('A0'), tok('A1'), tok('B0'), tok('N1'), tok('L1')
+    E0 = AX.Abs('Name', id="E0 (the empty name '')", truth=False)      # a header cell may be empty: still the column's name
+
+    def qci(**kw):
+        d = dict(table_name=None, column_index=None, column_name=None, is_star=False, alias_name=None)
+        d.update(kw)
+        return AX.Abs('QCI', **d)
+    star = lambda t: qci(is_star=True, table_name=t)            # noqa: E731
+    idx = lambda t, i: qci(table_name=t, column_index=i)         # noqa: E731
+    H, J = [A0, A1], [B0]
+    scen = [
+        ('naming rules', 'indexed columns', H, J, [None, idx('a', 0), idx('a', 1), idx('a', 2), idx('b', 0), idx('b', 1), idx('a', 5)], ['col1', A0, A1, 'col4', B0, 'col6', 'col7']),
+        ('naming rules', 'stars, names, aliases', H, J, [star(None), qci(column_name=N1, table_name='a'), qci(alias_name=L1), star('a'), star('b'), None], [A0, A1, B0, N1, L1, A0, A1, B0, 'col9']),
+        ('naming rules', 'a column whose header cell is empty', [A0, E0], [E0], [idx('a', 1), idx('b', 0), star(None)], [E0, E0, A0, E0, E0]),
+        ('naming rules', 'no join table', H, None, [star(None), idx('b', 0), star('b'), qci()], [A0, A1, 'col3', 'col4']),
+        ('no input header', 'no header, no alias', None, None, [idx('a', 0), None], None),
+        ('no input header', 'no header, alias', None, None, [idx('a', 0), qci(alias_name=L1), None], ['col1', L1, 'col3']),
+        ('no input header', 'no header, alias and star', None, None, [star(None), qci(alias_name=L1)], 'RbqlParsingError'),
+        ('alias detection', 'unparsed columns only', None, None, [None, None], None),
+        ('alias detection', 'unparsed column next to an alias', None, None, [None, qci(alias_name=L1)], ['col1', L1]),
+    ]
+
+    def on_attr(ex, node, obj, attr):
+        if isinstance(obj, AX.Abs) and obj.kind == 'QCI':
+            return ('nomemo', obj.props.get(attr))
+        return AX.NOT_HANDLED
+
+    def on_call(ex, node, fname, recv, args):
+        if fname.split('.')[-1].endswith('Error'):
+            return AX.Abs(fname.split('.')[-1])
+        return AX.NOT_HANDLED
+
+    def show(v):
+        if isinstance(v, list):
+            return '[' + ', '.join(show(x) for x in v) + ']'
+        if isinstance(v, AX.Abs):
+            return v.props.get('id', v.kind)
+        return repr(v)
+    bad = {}
+    for cls, title, ih, jh, infos, want in scen:
+        ex = AX.Explorer(p, mod, on_call=on_call, on_attr=on_attr, max_choices=1)
+        try:
+            runs, cut = ex.explore(fd, [None if ih is None else list(ih), None if jh is None else list(jh), list(infos)])
+        except Undecided:
+            return False
+        if len(runs) != 1:
+            return False
+        kind, val, node = runs[0].outcome
+        if isinstance(want, str):
+            ok = kind == 'raise' and isinstance(val, AX.Abs) and val.kind == want
+            got = 'raises {}'.format(val.kind if isinstance(val, AX.Abs) else val) if kind == 'raise' else 'returns ' + show(val)
+        elif kind == 'raise':
+            ok, got = False, 'raises {}'.format(val.kind if isinstance(val, AX.Abs) else val)
+        elif want is None:
+            ok, got = val is None, 'returns ' + show(val)
+        else:
+            ok = isinstance(val, list) and len(val) == len(want) and all((a is b) or (isinstance(a, str) and isinstance(b, str) and a == b) for a, b in zip(val, want))
+            got = 'returns ' + show(val)
+        if not ok:
+            bad.setdefault(cls, '{} - headers {} / {}, select list of {} item(s): {} instead of {}'.format(title, show(ih) if ih is not None else 'none', show(jh) if jh is not None else 'none', len(infos), got, ('raising ' + want) if isinstance(want, str) else show(want)))
+    good = {'naming rules': 'unparsed -> colK; star -> the header(s) of its table(s); column name; alias; index inside its own table\'s header -> that name, otherwise colK (K = position in the output)',
+            'no input header': 'without an input header: no header at all unless an alias is used; star together with alias is a parsing error',
+            'alias detection': 'alias presence = some column info exists and has an alias'}
+    for cls in ('naming rules', 'no input header', 'alias detection'):
+        rep.decide(cls not in bad, cls, fd, good[cls] + ' ({} abstract select lists evaluated)'.format(len([s_ for s_ in scen if s_[0] == cls])), 'select_output_header: ' + bad.get(cls, ''))
+    return True
+
+
 def rule_hd_table(cx, rep, port):
     """select_output_header: decision table total and ordered: None -> colK; star -> header lists; column name; alias;
     index in range -> source name; else colK"""
@@ -280,6 +356,8 @@ def rule_hd_table(cx, rep, port):
     if not loops:
         raise Undecided('select_output_header: naming loop not found', fd)
     lp = loops[-1]
+    if _hd_model(cx, rep, port, p, mod, fd):
+        return
     _hd_decision_table(rep, p, mod, fd, lp)
     # alias presence: a name that means "some column info has an alias" (flag loop, any(), some())
     from ..idioms import exists_predicates
